@@ -44,6 +44,17 @@ def run_pixel(W, cfg):
     W.float_constants()
     shp = tuple(cfg['shape'])
     img = W.reals('img', shp, nonneg=True, hi=1)
+    def int_frames_ok():
+        import numpy as _np
+        fr = (_np.arange(shp[0] * shp[1]).reshape(shp) * 7) % 11 + 1
+        ref = _np.asarray(W.lentil.detector.pixel(fr.astype(float), cfg['os']), dtype=float)
+        for dt in ('int64', 'int32', 'uint16', 'float32'):
+            got_ = _np.asarray(W.lentil.detector.pixel(fr.astype(dt), cfg['os']), dtype=float)
+            if got_.shape != ref.shape or not _np.allclose(got_, ref, rtol=1e-5, atol=1e-5):
+                return False
+        got_ = _np.asarray(W.lentil.detector.pixel(fr.tolist(), cfg['os']), dtype=float)
+        return got_.shape == ref.shape and bool(_np.allclose(got_, ref, rtol=1e-12, atol=1e-12))
+    W.ob_concrete('frames of whole counts held as integers (or as nested lists) give the same blur as the same counts held as floats', int_frames_ok)
     try:
         out = lt.detector.pixel(img, cfg['os'])
     except ValueError:
